@@ -40,3 +40,14 @@ func Note(msg string)                  { panic("vh stub") }
 func TrackWrites(on bool)              { panic("vh stub") }
 func MarkCaller(v any)                 { panic("vh stub") }
 func NoPanic()                         { panic("vh stub") }
+
+// Shape gives every slice reachable from p length n, allocates pointers, and
+// gives strings length n; interfaces stay nil unless a shaper is registered.
+func Shape(p any, n int) { panic("vh stub") }
+
+// RegisterShaper registers f (a func(*T, int)) to shape values of type T found
+// inside other values.
+func RegisterShaper(f any) { panic("vh stub") }
+
+// ForEach calls f (a func(*T)) on every value of type T reachable from p.
+func ForEach(p any, f any) { panic("vh stub") }
